@@ -592,7 +592,9 @@ class PreferenceAddition:
                             + var_vote[i+offset+1:]
                         )
                         offset += len(var_part)
-                    new_votes[var_vote] = n_variant_votes
+                    new_votes[var_vote] = (
+                        new_votes.get(var_vote, 0) + n_variant_votes
+                    )
         return new_votes if new_votes is not None else votes
 
     def _add_round_votes(self,
